@@ -1,4 +1,3 @@
 package main
 
-func (x *extractor) genLayouts() string   { return header + "namespace Ntrip.Gen\nend Ntrip.Gen\n" }
 func (x *extractor) genSkeletons() string { return header + "namespace Ntrip.Gen\nend Ntrip.Gen\n" }
